@@ -48,6 +48,16 @@ Theorem C05_refused_nan_edge : forall st id par pts, has_nan pts = true -> reply
 Proof. exact refused_nan_edge. Qed.
 Print Assumptions C05_refused_nan_edge.
 
+(* ... and those are the only node-point refusals: a node-point request without not-a-number is accepted in
+   every state, so whatever was refused before, a request that was acceptable stays acceptable (the checker
+   demands this of the implementation for re-sent requests: spec_c05_steps) *)
+Theorem C05_node_points_accepted : forall st id pts, has_nan pts = false -> reply_of (handle st (NodePts id pts)) = 0.
+Proof.
+  intros st id pts H. cbn [handle]. unfold node_points. rewrite H.
+  destruct (merge_batch false (node_rows (s_nodes st) id) (collapse pts)). reflexivity.
+Qed.
+Print Assumptions C05_node_points_accepted.
+
 (* every reachable graph is acyclic (wf), so ... *)
 Theorem C05_acyclic_reachable :
   forall ops st, wf st -> Inv st -> Forall op_ok ops -> wf (run st ops) /\ Inv (run st ops).
